@@ -275,9 +275,11 @@ Proof. exact concurrent_example. Qed.
    saveIndex of the live map, every live reference points to a blob file, no lock is held *)
 Theorem C08_lock_discipline_sufficient :
   forall (s0 : lstate) (sched : list (nat * (list nat * list nat))),
-    l_init s0 -> let s := l_run sched s0 in
-    l_quiescent s ->
-    (exists c, ll_disk s = save_index (fst c) (snd c) (ll_live s)) /\ refs_valid s /\ ll_ilock s = None.
+    l_init s0 -> IxInv (ll_live s0) -> let s := l_run sched s0 in
+    IxInv (ll_live s) /\
+    (l_quiescent s ->
+     (exists c, ll_disk s = save_index (fst c) (snd c) (ll_live s)) /\ DiskOK (ll_disk s) (ll_live s) /\
+     refs_valid s /\ ll_ilock s = None).
 Proof. exact locks_quiescent. Qed.
 Print Assumptions C08_lock_discipline_sufficient.
 
@@ -301,13 +303,31 @@ Print Assumptions C08_programs_respect_lock_discipline.
    calls on a store at rest, every schedule *)
 Theorem C08_store_operations_quiescent :
   forall (s0 : lstate) (sched : list (nat * (list nat * list nat))),
+    IxInv (ll_live s0) ->
+    (exists c, ll_disk s0 = save_index (fst c) (snd c) (ll_live s0)) -> refs_valid s0 -> ll_ilock s0 = None ->
+    (forall i, i < ll_n s0 -> exists ops, ll_ths s0 i = mkLT (prog_of_lops ops) ts0 None true) ->
+    let s := l_run sched s0 in
+    IxInv (ll_live s) /\
+    (l_quiescent s ->
+     (exists c, ll_disk s = save_index (fst c) (snd c) (ll_live s)) /\ DiskOK (ll_disk s) (ll_live s) /\
+     refs_valid s /\ ll_ilock s = None).
+Proof. exact store_operations_quiescent. Qed.
+Print Assumptions C08_store_operations_quiescent.
+
+(* ... and the store reopened from that index.json resolves every tag to its live descriptor
+   (ref-name annotation set) and has a digest entry exactly where the live store has one *)
+Theorem C08_store_operations_reload :
+  forall (s0 : lstate) (sched : list (nat * (list nat * list nat))),
+    IxInv (ll_live s0) ->
     (exists c, ll_disk s0 = save_index (fst c) (snd c) (ll_live s0)) -> refs_valid s0 -> ll_ilock s0 = None ->
     (forall i, i < ll_n s0 -> exists ops, ll_ths s0 i = mkLT (prog_of_lops ops) ts0 None true) ->
     let s := l_run sched s0 in
     l_quiescent s ->
-    (exists c, ll_disk s = save_index (fst c) (snd c) (ll_live s)) /\ refs_valid s /\ ll_ilock s = None.
-Proof. exact store_operations_quiescent. Qed.
-Print Assumptions C08_store_operations_quiescent.
+    let ix' := r_index (fold_left load_res (ll_disk s) res_empty) in
+    (forall t, lookup (RTag t) ix' = option_map (fun d => with_ref d (RTag t)) (lookup (RTag t) (ll_live s))) /\
+    (forall k, lookup (RDig k) ix' <> None <-> lookup (RDig k) (ll_live s) <> None).
+Proof. exact store_operations_reload. Qed.
+Print Assumptions C08_store_operations_reload.
 
 (* the lock placements of the two seeded changes are rejected by the checker, and the second one
    (Exists before RLock) run against a Delete ends with a tag, in memory and in index.json, on
